@@ -70,6 +70,7 @@ type rRequest struct {
 	CType   string            `json:"ctype"`
 	Script  []bool            `json:"script"`
 	Fail    bool              `json:"fail"`
+	SameErr bool              `json:"sameErr"`
 	// bookkeeping for the trace (not used by the driver)
 	Handler *hHandler `json:"handler,omitempty"`
 	Toks    []string  `json:"toks,omitempty"`
@@ -146,12 +147,20 @@ var (
 	script []bool
 	calls  int
 	fail   bool
+	same   bool
 )
 
-func Reset(s []bool, f bool) {
+func Reset(s []bool, f bool, sameErr bool) {
 	mu.Lock()
 	defer mu.Unlock()
-	events, script, calls, fail = nil, s, 0, f
+	events, script, calls, fail, same = nil, s, 0, f, sameErr
+}
+
+// SameErr reports whether the callback is to answer every refusal with one shared error value.
+func SameErr() bool {
+	mu.Lock()
+	defer mu.Unlock()
+	return same
 }
 
 func Take() []Event {
@@ -216,11 +225,16 @@ import (
 	"github.com/gopher-fleece/runtime"
 )
 
+var errRefused = &runtime.SecurityError{Message: "refused by script", StatusCode: runtime.HttpStatusCode(403)}
+
 // GleeceRequestAuthorization is the user-supplied callback: scripted and recording.
 func GleeceRequestAuthorization(ctx context.Context, engineCtx any, check runtime.SecurityCheck) (context.Context, *runtime.SecurityError) {
 	ok, idx := vrec.Auth(check.SchemaName, check.Scopes)
 	if ok {
 		return ctx, nil
+	}
+	if vrec.SameErr() {
+		return ctx, errRefused
 	}
 	status := 403
 	if idx%2 == 1 {
@@ -312,7 +326,9 @@ func loadTokens(path string) (map[string][]vToken, error) {
 func baseType(t string) string { return strings.TrimPrefix(t, "*") }
 
 // buildRequest turns (handler, token choice per parameter) into a concrete HTTP request description.
-func buildRequest(h *hHandler, toks []string, tokens map[string][]vToken) (rRequest, bool) {
+// decoy >= 0: parameter `decoy` is absent from its declared location, and a value is planted under the same wire name in the
+// other locations (a handler must not pick it up from there).
+func buildRequest(h *hHandler, toks []string, tokens map[string][]vToken, decoy int) (rRequest, bool) {
 	req := rRequest{Verb: h.Verb, Headers: map[string]string{}}
 	path := h.Path
 	q := url.Values{}
@@ -325,6 +341,18 @@ func buildRequest(h *hHandler, toks []string, tokens map[string][]vToken) (rRequ
 		if toks[i] == "ABSENT" {
 			if p.In == "path" {
 				return req, false
+			}
+			if i == decoy && (p.In == "query" || p.In == "header" || p.In == "form") {
+				if p.In != "query" {
+					q.Add(p.Wire, "decoy")
+				}
+				if p.In != "header" && !strings.ContainsAny(p.Wire, " _") {
+					req.Headers[p.Wire] = "decoy"
+				}
+				if p.In != "form" && !hasBodyParam(h) {
+					hasForm = true
+					form.Add(p.Wire, "decoy")
+				}
 			}
 			continue
 		}
@@ -382,6 +410,15 @@ func buildRequest(h *hHandler, toks []string, tokens map[string][]vToken) (rRequ
 	return req, true
 }
 
+func hasBodyParam(h *hHandler) bool {
+	for _, p := range h.Params {
+		if p.In == "body" {
+			return true
+		}
+	}
+	return false
+}
+
 func hasFormParam(h *hHandler) bool {
 	for _, p := range h.Params {
 		if p.In == "form" {
@@ -416,7 +453,15 @@ func allScripts(n int) [][]bool {
 func enumerateRequests(id string, hs []hHandler, tokens map[string][]vToken, full bool) []rRequest {
 	reqs := []rRequest{}
 	add := func(h *hHandler, toks []string, script []bool, fail bool, kind string) {
-		r, ok := buildRequest(h, toks, tokens)
+		decoy := -1
+		if kind == "absent+decoy" {
+			for k := range toks {
+				if toks[k] == "ABSENT" && h.Params[k].In != "ctx" {
+					decoy = k
+				}
+			}
+		}
+		r, ok := buildRequest(h, toks, tokens, decoy)
 		if !ok {
 			return
 		}
@@ -434,6 +479,7 @@ func enumerateRequests(id string, hs []hHandler, tokens map[string][]vToken, ful
 			}
 		}
 		r.Case, r.Rid, r.Handler, r.Toks, r.Script, r.Fail, r.Kind = id, len(reqs), h, append([]string{}, toks...), script, fail, kind
+		r.SameErr = kind == "auth-same-error"
 		reqs = append(reqs, r)
 	}
 	annotated := map[string]bool{}
@@ -477,6 +523,13 @@ func enumerateRequests(id string, hs []hHandler, tokens map[string][]vToken, ful
 		for _, s := range allScripts(n) {
 			add(h, base, s, false, "auth")
 		}
+		if n >= 2 {
+			// every alternative refused with one shared error value (a sentinel), and refused-then-approved with it
+			add(h, base, make([]bool, n), false, "auth-same-error")
+			last := make([]bool, n)
+			last[n-1] = true
+			add(h, base, last, false, "auth-same-error")
+		}
 		// every token of every parameter, and absence
 		for k, p := range h.Params {
 			if p.In == "ctx" {
@@ -494,6 +547,7 @@ func enumerateRequests(id string, hs []hHandler, tokens map[string][]vToken, ful
 				toks := append([]string{}, base...)
 				toks[k] = "ABSENT"
 				add(h, toks, nil, false, "absent")
+				add(h, toks, nil, false, "absent+decoy")
 				if len(h.Alts) > 0 {
 					// unauthorised AND invalid: the refusal must win (parsing comes after the gate)
 					refuse := make([]bool, len(h.Alts))
@@ -576,6 +630,7 @@ func driverSource(ids []string) string {
 	CType   string            ` + "`json:\"ctype\"`" + `
 	Script  []bool            ` + "`json:\"script\"`" + `
 	Fail    bool              ` + "`json:\"fail\"`" + `
+	SameErr bool              ` + "`json:\"sameErr\"`" + `
 }
 
 type result struct {
@@ -613,7 +668,7 @@ func serve(s served, rq request) (res result) {
 			res.Panic = fmt.Sprint(p)
 		}
 	}()
-	vrec.Reset(rq.Script, rq.Fail)
+	vrec.Reset(rq.Script, rq.Fail, rq.SameErr)
 	var body io.Reader
 	if rq.Body != "" {
 		body = strings.NewReader(rq.Body)
@@ -959,7 +1014,7 @@ func routerTrace(args []string) error {
 				for _, a := range argsGot {
 					canonArgs = append(canonArgs, strings.ReplaceAll(a, unicodeSample, "<U1>"))
 				}
-				ev := map[string]any{"ev": "Run", "probe": rq.Probe, "target": h.Ctrl + "." + h.Method, "toks": toks, "script": script, "fail": rq.Fail,
+				ev := map[string]any{"ev": "Run", "probe": rq.Probe, "target": h.Ctrl + "." + h.Method, "toks": toks, "script": script, "fail": rq.Fail, "sameErr": rq.SameErr,
 					"handler": map[string]any{"alts": alts, "params": params, "returnsValue": h.ReturnsValue},
 					"obs": map[string]any{"auth": auth, "invoked": invoked, "target": target, "args": canonArgs, "status": res.Status, "panicked": panicked}}
 				fmt.Fprintln(f, mustJSON(ev))
